@@ -26,6 +26,7 @@ def box_coordinate_rules(ctx, prefix):
     # comparisons: tolerant, against box[dim][0] / box[dim][1] of the same box
     env = rules.local_env(fi.node)
     found = {}
+    notol = []
     for n in walk_no_nested(fi.node):
         if isinstance(n, ast.If):
             t = n.test
@@ -37,6 +38,8 @@ def box_coordinate_rules(ctx, prefix):
                 reports = any(isinstance(x, ast.Call) and norm(x.func) == "self.raise_error"
                               for s in n.body for x in ast.walk(s))
                 found[(a, b)] = (neg, reports, n)
+                if not _has_abs_tol(c):
+                    notol.append(c)
             elif isinstance(t, ast.Compare) and any(v in norm(t) for v in ("box_lo", "box_hi")):
                 found[("exact", norm(t))] = (False, False, n)
     def has(a, b):
@@ -58,7 +61,26 @@ def box_coordinate_rules(ctx, prefix):
               f"box-bound comparisons are {[k for k in found]}: float bounds need a tolerant comparison of box_lo "
               f"with box[dim][0] and box_hi with box[dim][1] (exact == rejects well-formed files)",
               where=loc(fi, fi.node))
+    ctx.check(not notol, f"{prefix}.CMP-KIND", fi.site,
+              "the tolerant comparison of box bounds has an absolute tolerance (numpy's default atol=1e-8)",
+              f"`{norm(notol[0]) if notol else ''}` has no absolute tolerance (math.isclose defaults to abs_tol=0, "
+              f"np.isclose with atol=0): a box face stored as exactly 0.0 is never close to its recomputed value "
+              f"(~1e-18 of round-off), so a well-formed plotfile whose domain straddles the origin is rejected",
+              key="abs-tol", where=loc(fi, notol[0]) if notol else None)
     formulas.rule_level_range(ctx, f"{prefix}.LEVEL-RANGE", fi)
+
+
+def _has_abs_tol(call):
+    """library knowledge: numpy.isclose/allclose default to atol=1e-8; math.isclose defaults to abs_tol=0.0"""
+    f = norm(call.func)
+    kws = {k.arg: k.value for k in call.keywords if k.arg}
+    def zero(v):
+        return isinstance(v, ast.Constant) and isinstance(v.value, (int, float)) and v.value == 0
+    if f.startswith("math."):
+        return "abs_tol" in kws and not zero(kws["abs_tol"])
+    if len(call.args) >= 4:
+        return not zero(call.args[3])
+    return not ("atol" in kws and zero(kws["atol"]))
 
 
 def run(ctx):
